@@ -16,7 +16,6 @@ import (
 	"runtime/debug"
 	"strings"
 	"sync"
-	"sync/atomic"
 	"syscall"
 	"testing"
 	"testing/synctest"
@@ -172,29 +171,23 @@ func EnvFor(site *Site, inv *Invocation) []string {
 
 const watchdog = time.Hour
 
-// runSeq is odd while an in-process run is under way; runScenario is the
-// scenario of that run. The fake-time watchdog cannot see a goroutine that
-// spins without ever blocking (fake time only advances when every goroutine
-// of the bubble is blocked), so the worker also watches these from outside
-// the bubble on the real clock.
 // ProcessStdout is the worker's own stdout; os.Stdout is swapped for a
 // capture file while git-sizer runs in-process.
 var ProcessStdout = os.Stdout
 
-var (
-	runSeq      atomic.Uint64
-	runScenario atomic.Pointer[Scenario]
-)
+// While an in-process run is under way the file CurrentFile+".running"
+// exists. The fake-time watchdog cannot see a goroutine that spins without
+// ever blocking (fake time only advances when every goroutine of the bubble
+// is blocked), so the driver watches that file from outside on the real
+// clock: a run still under way after 150 s is a livelock, and CurrentFile
+// holds its scenario. (A watcher goroutine inside the worker would disturb
+// the run queue of the single P it shares with the simulation.)
 
 // RunA executes the scenario in-process. The site must be the
 // materialised sc.World.
 func RunA(t *testing.T, h Hooks, sc *Scenario, site *Site) *Result {
 	runMu.Lock()
 	defer runMu.Unlock()
-	// bracket the run for the real-time livelock monitor (worker.go)
-	runScenario.Store(sc)
-	runSeq.Add(1)
-	defer runSeq.Add(1)
 
 	res := &Result{}
 	run := &Run{sc: sc, w: sc.World, site: site}
@@ -223,10 +216,14 @@ func RunA(t *testing.T, h Hooks, sc *Scenario, site *Site) *Result {
 		// crash attribution: a panic in a goroutine the runner cannot
 		// recover kills the worker; the driver then replays this file
 		sc.Save(CurrentFile)
+		os.WriteFile(CurrentFile+".running", nil, 0o644)
+		defer os.Remove(CurrentFile + ".running")
 	}
 	pipe.SimCommandStage = run.Factory
 	defer func() { pipe.SimCommandStage = nil }()
-	yieldpt.Set(sc.Plan.GoYields)
+	if !noYields {
+		yieldpt.Set(sc.Plan.GoYields)
+	}
 	defer yieldpt.Set(nil)
 
 	var stdout bytes.Buffer
@@ -268,6 +265,8 @@ func RunA(t *testing.T, h Hooks, sc *Scenario, site *Site) *Result {
 		}()
 		synctest.Test(t, func(t *testing.T) {
 			run.t0 = time.Now()
+			stopYield := yieldpt.Start()
+			defer stopYield()
 			done := make(chan struct{})
 			go func() {
 				defer close(done)
